@@ -9,3 +9,5 @@ import AITB.Props.C03Anytime
 import AITB.Props.C03Cons
 import AITB.Props.C03Horizon
 import AITB.Props.C03Tie
+import AITB.Props.C03Qmdp
+import AITB.Props.C03Examples
